@@ -133,6 +133,10 @@ def stage_area(ctx, res, stats, batch):
             stats["timescale_raised"][key] = stats["timescale_raised"].get(key, 0) + 1
             if T[0] == "assert" and mt != "assert":
                 res.corr_failures.append(Violation("timescale-assert-differs", f"mutational_timescale asserts ({T[1]}) but the model returns a value", replay, "B"))
+            if not (T[0] == "assert" and rc.ZERO_SPAN_MSG in T[1]):
+                # the only assertion a valid input can trip here is the empty-interval one; anything else is the code's fault
+                res.violations.append(Violation("timescale-unexpected-exception",
+                                                f"mutational_timescale raised {T[1] or 'AssertionError without message'} on a valid input", replay))
             continue
         stats["timescale_ok"] += 1
         if not isinstance(mt, dict):
